@@ -31,9 +31,12 @@ GLOBAL_REWRITES = [
     ('R5a', re.compile(r'\bpub\(crate\)'), 'pub', 'pub(crate) -> pub'),
     ('R5b', re.compile(r'(?m)^[ \t]*#\[(?:allow|must_use|deprecated|cfg\(feature = "default-rng"\)|inline)[^\]]*\][ \t]*\n?'), '',
      'attribute dropped'),
-    ('R5c', re.compile(r'(?m)^([ \t]*)const (?=[A-Z_0-9]+\s*:)'), lambda m: m.group(1) + 'pub const ', 'const -> pub const'),
+    ('R5c', re.compile(r'(?m)^([ \t]*)const (?=[A-Z_0-9]+\s*:[^;\n]*=)'), lambda m: m.group(1) + 'pub const ', 'const -> pub const'),
     ('R1', re.compile(r'\.to_le_bytes\(\)\[0\]'), '.le0()', 'x.to_le_bytes()[0] -> x.le0() (assumed: x mod 256)'),
     ('R2', re.compile(r'\|_\|'), '|_e|', 'closure parameter _ -> _e'),
+    ('R13', re.compile(r'<&\[u8; (\d+)\]>::try_from\(([^\n]*?)\)\.expect\("[^"\n]*"\)'),
+     lambda m: 'vp_as_array::<%s>(%s)' % (m.group(1), m.group(2)),
+     '<&[u8;N]>::try_from(s).expect(..) -> vp_as_array::<N>(s) (assumed: succeeds iff s.len()==N, which becomes a precondition)'),
     ('R12', re.compile(r'\b(i32|i64|usize)::from\('), lambda m: '<%s as VpFrom<_>>::vp_from(' % m.group(1),
      'T::from(x) -> <T as VpFrom<_>>::vp_from(x) (assumed: lossless widening conversion, prelude VpFrom)'),
 ]
